@@ -2,6 +2,7 @@ package checks
 
 import (
 	"fmt"
+	"math"
 	"math/rand"
 	"strings"
 	"sync"
@@ -248,7 +249,8 @@ func runC11(c *core.Ctx) {
 	c.RunPart("l3-huge-limit", 10*time.Minute, func(c *core.Ctx) {
 		for i, b := range []gen.Book{cycleBook(1, 0), cycleBook(2, 1), cycleBook(3, 0), structBook(1|1<<6|1<<12, edgeMods{})} {
 			chain, cyc := model.Chain(b)
-			for _, n := range []int{100000000, 1 << 40} {
+			// incl. the largest values an int holds (a height of "limit" or "limit + 1" must not wrap around)
+			for _, n := range []int{100000000, 1 << 40, math.MaxInt32, math.MaxInt32 + 1, math.MaxInt64 - 1, math.MaxInt64} {
 				for entry := 0; entry < 2; entry++ {
 					c.Crumb(0, fmt.Sprintf("cyclic book %d with limit %d entry %d\n%s", i, n, entry, bookText(b)))
 					c11Verdict(c, b, []int{0, 1, 2, 3, 4, 5, 6, 7}[:len(b)], entry, n, chain, cyc)
@@ -305,8 +307,12 @@ func runC11(c *core.Ctx) {
 		}
 	}
 	for cl := 1; cl <= 4; cl++ {
-		for _, n := range []int{1, 3, 10, 100000000} {
-			cases = append(cases, cli{cycleBook(cl, cl-1), n, "flag", cmds[r.Intn(len(cmds))], fmt.Sprintf("cycle %d limit %d via flag", cl, n), false})
+		for ni, n := range []int{1, 3, 10, 100000000, math.MaxInt32, math.MaxInt64 - 1, math.MaxInt64} {
+			via := []string{"flag", "env", "config"}[(cl+ni)%3]
+			if n < 100000000 {
+				via = "flag"
+			}
+			cases = append(cases, cli{cycleBook(cl, cl-1), n, via, cmds[r.Intn(len(cmds))], fmt.Sprintf("cycle %d limit %d via %s", cl, n, via), false})
 		}
 	}
 	for _, l := range []int{64, 110} {
